@@ -18,18 +18,28 @@ VARIABLES key,      \* [1..3 -> KeyKinds]   api_key of the provider in each laye
           hdr,      \* [1..3 -> BOOLEAN]    layer defines a secret header (name x-secret-<layer>)
           select,   \* how the provider / endpoint is chosen
           envkey,   \* RIP_OPENRESPONSES_API_KEY
-          openai    \* the endpoint mentions openai.com and OPENAI_API_KEY is set
-vars == <<key, hdr, select, envkey, openai>>
+          openai,   \* the endpoint mentions openai.com and OPENAI_API_KEY is set
+          bad       \* <<0, "none">> or <<layer, kind>>: one malformed layer (it still contains a secret)
+                    \*   "badjson"   not JSON: the layer is skipped and reported as invalid
+                    \*   "misplaced" / "hdrstring"  valid JSON of the wrong shape (api_key one level too high, headers a
+                    \*   string): the merged configuration fails the schema and the default (empty) one is used
+vars == <<key, hdr, select, envkey, openai, bad>>
 
 Init == /\ key \in [1..3 -> KeyKinds] /\ hdr \in [1..3 -> BOOLEAN]
         /\ select \in Select /\ envkey \in EnvKey /\ openai \in BOOLEAN
+        /\ bad \in {<<0, "none">>} \cup ((1..3) \X {"badjson", "misplaced", "hdrstring"})
+        /\ (bad[1] # 0 => (openai = FALSE /\ hdr = [i \in 1..3 |-> FALSE]))       \* keeps the space small
 Next == UNCHANGED vars
 Spec == Init /\ [][Next]_vars
 
 \* ---- the code's resolution
-ProviderKnown == select # "nomatch"
+SchemaBroken == bad[2] \in {"misplaced", "hdrstring"}
+Skipped(i) == bad = <<i, "badjson">>
+ProviderKnown == select # "nomatch" /\ ~SchemaBroken
+\* with the default configuration a route cannot name an endpoint: there is no provider to talk to
+EndpointKnown == ~(select = "route" /\ (SchemaBroken \/ Skipped(1)))
 \* deep merge: the last layer that mentions api_key wins (also when it cannot be resolved)
-Defining == {i \in 1..3 : key[i] # "absent"}
+Defining == {i \in 1..3 : key[i] # "absent" /\ ~Skipped(i)}
 Winner == IF Defining = {} THEN 0 ELSE CHOOSE i \in Defining : \A j \in Defining : j <= i
 WinnerResolves == Winner # 0 /\ key[Winner] \in {"inline", "env_set"}
 FromProvider == ProviderKnown /\ WinnerResolves
@@ -45,20 +55,21 @@ Source ==
   ELSE IF envkey = "set" THEN "env:RIP_OPENRESPONSES_API_KEY"
   ELSE IF openai THEN "env:OPENAI_API_KEY"
   ELSE "none"
-HeaderNames == IF ProviderKnown THEN {i \in 1..3 : hdr[i]} ELSE {}
+HeaderNames == IF ProviderKnown THEN {i \in 1..3 : hdr[i] /\ ~Skipped(i)} ELSE {}
 
 \* ---- independent statement of the precedence rules (docs/03_contracts/config.md)
 \* project beats custom beats global; an unresolvable reference falls through to the environment
 RuleKey ==
-  LET pick == IF key[3] # "absent" THEN 3 ELSE IF key[2] # "absent" THEN 2 ELSE IF key[1] # "absent" THEN 1 ELSE 0
-  IN IF ProviderKnown /\ pick # 0 /\ key[pick] \in {"inline", "env_set"} THEN <<"layer", pick, key[pick]>>
+  LET Has(i) == key[i] # "absent" /\ bad # <<i, "badjson">>
+      pick == IF Has(3) THEN 3 ELSE IF Has(2) THEN 2 ELSE IF Has(1) THEN 1 ELSE 0
+  IN IF select # "nomatch" /\ bad[2] \notin {"misplaced", "hdrstring"} /\ pick # 0 /\ key[pick] \in {"inline", "env_set"} THEN <<"layer", pick, key[pick]>>
      ELSE IF envkey = "set" THEN <<"env", "RIP_OPENRESPONSES_API_KEY">>
      ELSE IF openai THEN <<"env", "OPENAI_API_KEY">>
      ELSE <<"none">>
 PrecedenceHolds == EffectiveKey = RuleKey
 
 \* ---- flows: a secret value may reach the provider and nothing else
-Secrets == {<<"key", i>> : i \in Defining} \cup {<<"hdr", i>> : i \in {j \in 1..3 : hdr[j]}}
+Secrets == {<<"key", i>> : i \in {j \in 1..3 : key[j] # "absent"}} \cup (IF bad[1] # 0 THEN {<<"malformed", bad[1]>>} ELSE {}) \cup {<<"hdr", i>> : i \in {j \in 1..3 : hdr[j]}}
            \cup (IF envkey = "set" THEN {<<"envkey">>} ELSE {}) \cup (IF openai THEN {<<"openai">>} ELSE {})
 Sinks == {"frames", "artifacts", "snapshots", "caches", "request_dump", "doctor", "process_output", "http_responses"}
 \* as implemented: the Authorization header and the configured headers go to the provider only
@@ -66,7 +77,7 @@ MayReach(s) == {"provider"}
 NoLeak == \A s \in Secrets : MayReach(s) \cap Sinks = {}
 \* diagnostics say only whether a key is present and where it came from
 \* (the doctor resolves without a request: an endpoint given only as a per-request override is unknown to it)
-DoctorSees == select # "override"
+DoctorSees == select # "override" /\ EndpointKnown
 DoctorReport == IF DoctorSees THEN [has_api_key |-> HasKey, api_key_source |-> Source, headers |-> HeaderNames]
                               ELSE [has_api_key |-> FALSE, api_key_source |-> "none", headers |-> {}]
 =============================================================================
